@@ -8,6 +8,8 @@ from core import show
 from runner import Ob
 
 FILE = ("agg", "adt", "analyzer::ast::Node::SourceUnit", (("param", 1),))
+MUTATORS = ("push", "append", "extend", "insert", "remove", "clear", "sort", "sort_by", "sort_by_key", "sort_unstable", "truncate", "pop", "retain", "drain",
+            "dedup", "dedup_by", "dedup_by_key", "push_str", "swap_remove", "resize", "extend_from_slice", "reverse")
 
 
 def rooted_in_file(t, body=None):
@@ -72,6 +74,27 @@ def check_body(rule, crate, body, label):
             for (x, t) in extra:
                 obs.append(Ob(rule + ".exit", body.path, "%s: a loop over the whole file is left early" % label, False,
                               site="%s:%d" % (body.file, body.blocks[x]["tloc"]["line"]), expected="exhaustion is the only exit of a file-wide loop"))
+        if filewide:
+            # objects created before the loop and mutated inside it (other than the result set and name- / identity-keyed tables)
+            result = body.val_local(0)
+            seen_objs = set()
+            for s in S.call_sites(body):
+                if s.bb not in lp.blocks or not s.args:
+                    continue
+                name = s.path.rsplit("::", 1)[-1]
+                seq_mut = s.path.startswith(("std::vec::Vec::", "std::string::String::", "std::collections::VecDeque::", "std::slice::<impl [T]>::sort", "core::slice::<impl [T]>::")) \
+                    and name in MUTATORS
+                mem_mut = s.path in ("std::mem::take", "std::mem::swap", "std::mem::replace")
+                if not (seq_mut or mem_mut):
+                    continue
+                obj = O.root_object(s.args[0])
+                cb = O.creation_block(body, obj)
+                if cb is None or cb in lp.blocks or obj == result or obj in seen_objs:
+                    continue
+                seen_objs.add(obj)
+                obs.append(Ob(rule + ".carried", body.path, "%s: a buffer created before the loop over the whole file is modified inside it (%s)" % (label, name), False,
+                              site=s.where, expected="per-item scratch state is created inside the loop", found=show(obj)[:60],
+                              example="a contract with one state variable followed by another contract"))
         obs.append(Ob(rule + ".loop", body.path, "%s: loop over %s is %s" % (label, show(it)[:70], "file-wide, stateless" if filewide else "inside one item"),
                       True, site=where, nontrivial=filewide))
     # file-rooted searches inside per-item loops
